@@ -3,8 +3,10 @@ package main
 import (
 	"fmt"
 	"net"
+	"os"
 	"sort"
 	"strconv"
+	"strings"
 	"sync"
 	"sync/atomic"
 	"time"
@@ -28,6 +30,7 @@ type faultRelay struct {
 
 	stall  atomic.Bool
 	refuse atomic.Bool
+	freeze atomic.Bool // stop reading altogether: the peers' TCP buffers fill up (black hole)
 }
 
 type acceptRec struct {
@@ -41,6 +44,29 @@ type relayPair struct {
 	ender          atomic.Int32 // who ended the connection first: 0 nobody yet, 1 the client side, 2 the server side, 3 the relay (cut)
 	endedAt        atomic.Int64
 	once           sync.Once
+	clientGone     atomic.Int64 // frozen relay only: when the kernel showed that the client had closed / reset its end
+	serverGone     atomic.Int64
+	firstUp        atomic.Int32 // first byte the client wrote (frp message type when neither tcpMux nor TLS is used)
+	downBytes      atomic.Int64 // bytes the server wrote
+}
+
+// dieWithSession: must this connection be gone once the client has given up its session?
+// With tcpMux everything rides on one TCP connection. Without it: the control connection (first message
+// Login 'o') and work connections the server has not started yet (NewWorkConn 'w', nothing came back);
+// started work connections carry user streams and live on their own by design.
+func (p *relayPair) dieWithSession(mux bool) (bool, string) {
+	if mux {
+		return true, "the multiplexed connection"
+	}
+	switch p.firstUp.Load() {
+	case 'o':
+		return true, "the control connection"
+	case 'w':
+		if p.downBytes.Load() == 0 {
+			return true, "a work connection not yet started by the server"
+		}
+	}
+	return false, ""
 }
 
 func startFaultRelay(port int, target string) (*faultRelay, error) {
@@ -129,7 +155,21 @@ func (r *faultRelay) note(t int64, refused bool) {
 func (r *faultRelay) pump(p *relayPair, from, to net.Conn, up bool) {
 	buf := make([]byte, 32*1024)
 	for {
+		for r.freeze.Load() && p.ender.Load() == 0 {
+			time.Sleep(20 * time.Millisecond)
+		}
 		n, err := from.Read(buf)
+		if n > 0 {
+			if up {
+				p.firstUp.CompareAndSwap(0, int32(buf[0]))
+			} else {
+				p.downBytes.Add(int64(n))
+			}
+		}
+		if r.freeze.Load() && err == nil {
+			// frozen while blocked in Read: the bytes are lost, like everything else in a black hole
+			continue
+		}
 		if n > 0 && !r.stall.Load() {
 			if _, werr := to.Write(buf[:n]); werr != nil {
 				break
@@ -309,4 +349,64 @@ func (s *statusProbe) allRunning() string {
 	case <-time.After(2 * time.Second):
 		return "client: status query blocked for 2 s (proxy manager lock held)"
 	}
+}
+
+// watchSockets is the relay's eye while it is frozen (it does not read, so it cannot see EOF): the kernel's
+// socket table tells whether the peer of each relayed connection has closed or reset it.
+func (r *faultRelay) watchSockets(stop <-chan struct{}) {
+	for {
+		select {
+		case <-stop:
+			return
+		case <-time.After(100 * time.Millisecond):
+		}
+		st := tcpStates()
+		for _, p := range r.Live() {
+			if p.ender.Load() != 0 {
+				continue
+			}
+			for i, c := range []net.Conn{p.client, p.server} {
+				la, lok := c.LocalAddr().(*net.TCPAddr)
+				ra, rok := c.RemoteAddr().(*net.TCPAddr)
+				if !lok || !rok {
+					continue
+				}
+				if s, ok := st[[2]int{la.Port, ra.Port}]; !ok || s != 1 { // 1 = ESTABLISHED
+					if i == 0 {
+						p.clientGone.CompareAndSwap(0, h.Now())
+					} else {
+						p.serverGone.CompareAndSwap(0, h.Now())
+					}
+				}
+			}
+		}
+	}
+}
+
+// tcpStates parses /proc/net/tcp: (local port, remote port) -> state, loopback IPv4 only.
+func tcpStates() map[[2]int]int {
+	out := map[[2]int]int{}
+	b, err := os.ReadFile("/proc/net/tcp")
+	if err != nil {
+		return out
+	}
+	for i, ln := range strings.Split(string(b), "\n") {
+		f := strings.Fields(ln)
+		if i == 0 || len(f) < 4 {
+			continue
+		}
+		l := strings.Split(f[1], ":")
+		rm := strings.Split(f[2], ":")
+		if len(l) != 2 || len(rm) != 2 || l[0] != "0100007F" {
+			continue
+		}
+		lp, e1 := strconv.ParseInt(l[1], 16, 32)
+		rp, e2 := strconv.ParseInt(rm[1], 16, 32)
+		stt, e3 := strconv.ParseInt(f[3], 16, 32)
+		if e1 != nil || e2 != nil || e3 != nil {
+			continue
+		}
+		out[[2]int{int(lp), int(rp)}] = int(stt)
+	}
+	return out
 }
